@@ -81,8 +81,10 @@ RULE = (
 
 MATS = ["pandas", "narwhals", "arrow"]
 OUTPUTS = ["pandas", "numpy", "sparse"]
-TEXT_POOL = ["a", "b", "c", "B", "Z", "aa", "a b", "10", "9", "é", "x-y", "zeta", "Alpha", "_u"]
-CAT_POOL = ["lo", "mid", "hi", "top", "a", "b", "c", "Z"]
+# the last four look like names the library uses internally (reserved `__…` dictionary keys, the `T.` prefix and the
+# brackets of generated column labels): a level may be called anything
+TEXT_POOL = ["a", "b", "c", "B", "Z", "aa", "a b", "10", "9", "é", "x-y", "zeta", "Alpha", "_u", "__x", "__kind__", "T.b", "[z]"]
+CAT_POOL = ["lo", "mid", "hi", "top", "a", "b", "c", "Z", "__x", "__kind__", "T.b", "[z]"]
 
 
 def fstr(x) -> str:
